@@ -15,15 +15,16 @@ structure Store.Le (s t : Store) : Prop where
   cells : s.cells.size ≤ t.cells.size
   tables : s.tables.size ≤ t.tables.size
   closures : s.closures.size ≤ t.closures.size
+  cos : s.cos.size ≤ t.cos.size
   input : t.input = s.input
   trace : ∃ ev, t.trace.toList = s.trace.toList ++ ev
 
 theorem Store.Le.refl (s : Store) : Store.Le s s :=
-  ⟨Nat.le_refl _, Nat.le_refl _, Nat.le_refl _, rfl, ⟨[], by simp⟩⟩
+  ⟨Nat.le_refl _, Nat.le_refl _, Nat.le_refl _, Nat.le_refl _, rfl, ⟨[], by simp⟩⟩
 
 theorem Store.Le.trans {a b c : Store} (h1 : Store.Le a b) (h2 : Store.Le b c) : Store.Le a c :=
   ⟨Nat.le_trans h1.cells h2.cells, Nat.le_trans h1.tables h2.tables, Nat.le_trans h1.closures h2.closures,
-   h2.input.trans h1.input, by
+   Nat.le_trans h1.cos h2.cos, h2.input.trans h1.input, by
      obtain ⟨e1, h1⟩ := h1.trace
      obtain ⟨e2, h2⟩ := h2.trace
      exact ⟨e1 ++ e2, by rw [h2, h1, List.append_assoc]⟩⟩
@@ -79,10 +80,7 @@ theorem grows_tryLua {α} {x : M α} (hx : Grows x) : Grows (tryLua x) := by
     simp only [hxs, ExceptT.run] at h
     cases r1 with
     | ok a => simp [pure, StateT.pure] at h; obtain ⟨_, rfl⟩ := h; exact h1
-    | error e =>
-      cases e with
-      | lua v hd => simp [pure, StateT.pure] at h; obtain ⟨_, rfl⟩ := h; exact h1
-      | unsupported w => simp [pure, StateT.pure] at h; obtain ⟨_, rfl⟩ := h; exact h1
+    | error e => cases e <;> (simp [pure, StateT.pure] at h; obtain ⟨_, rfl⟩ := h; exact h1)
 
 /-- a state-reading computation -/
 theorem grows_get_bind {β} {f : Store → M β} (hf : ∀ a, Grows (f a)) :
@@ -104,48 +102,171 @@ theorem grows_set {t : Store → Store} (ht : ∀ s, Store.Le s (t s)) : Grows (
 
 /-! ### store primitives -/
 
+theorem Store.Le.record (s : Store) (e : LogEntry) : Store.Le s (s.record e) := by
+  unfold Store.record; split <;> exact ⟨Nat.le_refl _, Nat.le_refl _, Nat.le_refl _, Nat.le_refl _, rfl, ⟨[], by simp⟩⟩
+
+theorem Store.Le.of_same {s t : Store} (h1 : t.cells.size = s.cells.size) (h2 : t.tables.size = s.tables.size)
+    (h3 : t.closures.size = s.closures.size) (h4 : t.cos.size = s.cos.size) (h5 : t.input = s.input)
+    (h6 : t.trace = s.trace) : Store.Le s t :=
+  ⟨by omega, by omega, by omega, by omega, h5, ⟨[], by simp [h6]⟩⟩
+
+/-- every primitive is `get >>= fun s => …` with the new state described from `s` -/
+theorem grows_of_run {α} {x : M α} (h : ∀ s r s', x.run.run s = some (r, s') → Store.Le s s') : Grows x := ⟨h⟩
+
+macro "prim_simp" h:ident : tactic => `(tactic|
+  simp [ExceptT.run, bind, ExceptT.bind, ExceptT.mk, ExceptT.bindCont, StateT.run, StateT.bind, get, getThe,
+    MonadStateOf.get, liftM, monadLift, MonadLift.monadLift, ExceptT.lift, StateT.get, Functor.map, StateT.map, pure, StateT.pure,
+    set, MonadStateOf.set, StateT.set, ExceptT.pure, modify, modifyGet, MonadStateOf.modifyGet, StateT.modifyGet,
+    divergence, unsupported, throw, throwThe, MonadExceptOf.throw] at $h:ident)
+
+theorem grows_divergence {α} : Grows (divergence : M α) := grows_unsupported _
+
+theorem grows_getS : Grows getS := by
+  refine ⟨fun s r s' h => ?_⟩
+  unfold getS at h; prim_simp h
+  obtain ⟨_, rfl⟩ := h; exact Store.Le.refl _
+
 theorem grows_allocCell (v : Val) : Grows (allocCell v) := by
   refine ⟨fun s r s' h => ?_⟩
-  simp [allocCell, ExceptT.run, bind, ExceptT.bind, ExceptT.mk, ExceptT.bindCont, StateT.run, StateT.bind, get, getThe,
-    MonadStateOf.get, liftM, monadLift, MonadLift.monadLift, ExceptT.lift, StateT.get, Functor.map, StateT.map, pure, StateT.pure,
-    set, MonadStateOf.set, StateT.set, ExceptT.pure] at h
-  obtain ⟨_, rfl⟩ := h
-  exact ⟨by simp, Nat.le_refl _, Nat.le_refl _, rfl, ⟨[], by simp⟩⟩
+  unfold allocCell at h
+  cases hr : s.replay with
+  | nil =>
+    prim_simp h; simp [hr] at h; obtain ⟨_, rfl⟩ := h
+    refine Store.Le.trans ?_ (Store.Le.record _ _)
+    exact ⟨by simp, Nat.le_refl _, Nat.le_refl _, Nat.le_refl _, rfl, ⟨[], by simp⟩⟩
+  | cons e rest =>
+    prim_simp h; simp [hr] at h
+    cases e <;> simp at h <;> (obtain ⟨_, rfl⟩ := h; exact Store.Le.of_same rfl rfl rfl rfl rfl rfl)
 
 theorem grows_allocTable (t : Table) : Grows (allocTable t) := by
   refine ⟨fun s r s' h => ?_⟩
-  simp [allocTable, ExceptT.run, bind, ExceptT.bind, ExceptT.mk, ExceptT.bindCont, StateT.run, StateT.bind, get, getThe,
-    MonadStateOf.get, liftM, monadLift, MonadLift.monadLift, ExceptT.lift, StateT.get, Functor.map, StateT.map, pure, StateT.pure,
-    set, MonadStateOf.set, StateT.set, ExceptT.pure] at h
-  obtain ⟨_, rfl⟩ := h
-  exact ⟨Nat.le_refl _, by simp, Nat.le_refl _, rfl, ⟨[], by simp⟩⟩
+  unfold allocTable at h
+  cases hr : s.replay with
+  | nil =>
+    prim_simp h; simp [hr] at h; obtain ⟨_, rfl⟩ := h
+    refine Store.Le.trans ?_ (Store.Le.record _ _)
+    exact ⟨Nat.le_refl _, by simp, Nat.le_refl _, Nat.le_refl _, rfl, ⟨[], by simp⟩⟩
+  | cons e rest =>
+    prim_simp h; simp [hr] at h
+    cases e <;> simp at h <;> (obtain ⟨_, rfl⟩ := h; exact Store.Le.of_same rfl rfl rfl rfl rfl rfl)
 
 theorem grows_allocClosure (c : Closure) : Grows (allocClosure c) := by
   refine ⟨fun s r s' h => ?_⟩
-  simp [allocClosure, ExceptT.run, bind, ExceptT.bind, ExceptT.mk, ExceptT.bindCont, StateT.run, StateT.bind, get, getThe,
-    MonadStateOf.get, liftM, monadLift, MonadLift.monadLift, ExceptT.lift, StateT.get, Functor.map, StateT.map, pure, StateT.pure,
-    set, MonadStateOf.set, StateT.set, ExceptT.pure] at h
-  obtain ⟨_, rfl⟩ := h
-  exact ⟨Nat.le_refl _, Nat.le_refl _, by simp, rfl, ⟨[], by simp⟩⟩
+  unfold allocClosure at h
+  cases hr : s.replay with
+  | nil =>
+    prim_simp h; simp [hr] at h; obtain ⟨_, rfl⟩ := h
+    refine Store.Le.trans ?_ (Store.Le.record _ _)
+    exact ⟨Nat.le_refl _, Nat.le_refl _, by simp, Nat.le_refl _, rfl, ⟨[], by simp⟩⟩
+  | cons e rest =>
+    prim_simp h; simp [hr] at h
+    cases e <;> simp at h <;> (obtain ⟨_, rfl⟩ := h; exact Store.Le.of_same rfl rfl rfl rfl rfl rfl)
+
+theorem grows_allocCo (c : CoState) : Grows (allocCo c) := by
+  refine ⟨fun s r s' h => ?_⟩
+  unfold allocCo at h
+  cases hr : s.replay with
+  | nil =>
+    prim_simp h; simp [hr] at h; obtain ⟨_, rfl⟩ := h
+    refine Store.Le.trans ?_ (Store.Le.record _ _)
+    exact ⟨Nat.le_refl _, Nat.le_refl _, Nat.le_refl _, by simp, rfl, ⟨[], by simp⟩⟩
+  | cons e rest =>
+    prim_simp h; simp [hr] at h
+    cases e <;> simp at h <;> (obtain ⟨_, rfl⟩ := h; exact Store.Le.of_same rfl rfl rfl rfl rfl rfl)
 
 theorem grows_readCell (i : Nat) : Grows (readCell i) := by
-  unfold readCell; exact grows_get_bind fun _ => grows_pure _
+  refine ⟨fun s r s' h => ?_⟩
+  unfold readCell at h
+  cases hr : s.replay with
+  | nil => prim_simp h; simp [hr] at h; obtain ⟨_, rfl⟩ := h; exact Store.Le.record _ _
+  | cons e rest =>
+    prim_simp h; simp [hr] at h
+    cases e <;> simp at h <;> (obtain ⟨_, rfl⟩ := h; exact Store.Le.of_same rfl rfl rfl rfl rfl rfl)
+
 theorem grows_getTable (a : Nat) : Grows (getTable a) := by
-  unfold getTable; exact grows_get_bind fun _ => grows_pure _
+  refine ⟨fun s r s' h => ?_⟩
+  unfold getTable at h
+  cases hr : s.replay with
+  | nil => prim_simp h; simp [hr] at h; obtain ⟨_, rfl⟩ := h; exact Store.Le.record _ _
+  | cons e rest =>
+    prim_simp h; simp [hr] at h
+    cases e <;> simp at h <;> (obtain ⟨_, rfl⟩ := h; exact Store.Le.of_same rfl rfl rfl rfl rfl rfl)
+
+theorem grows_readCoStatus (a : Nat) : Grows (readCoStatus a) := by
+  refine ⟨fun s r s' h => ?_⟩
+  unfold readCoStatus at h
+  cases hr : s.replay with
+  | nil => prim_simp h; simp [hr] at h; obtain ⟨_, rfl⟩ := h; exact Store.Le.record _ _
+  | cons e rest =>
+    prim_simp h; simp [hr] at h
+    cases e <;> simp at h <;> (obtain ⟨_, rfl⟩ := h; exact Store.Le.of_same rfl rfl rfl rfl rfl rfl)
+
+theorem grows_nextLog : Grows nextLog := by
+  refine ⟨fun s r s' h => ?_⟩
+  unfold nextLog at h
+  cases hr : s.replay with
+  | nil => prim_simp h; simp [hr] at h; obtain ⟨_, rfl⟩ := h; exact Store.Le.refl _
+  | cons e rest => prim_simp h; simp [hr] at h; obtain ⟨_, rfl⟩ := h; exact Store.Le.of_same rfl rfl rfl rfl rfl rfl
+
 theorem grows_getClosure (a : Nat) : Grows (getClosure a) := by
-  unfold getClosure; exact grows_get_bind fun _ => grows_pure _
+  refine ⟨fun s r s' h => ?_⟩
+  unfold getClosure at h; prim_simp h
+  obtain ⟨_, rfl⟩ := h; exact Store.Le.refl _
 theorem grows_getInput : Grows getInput := by
-  unfold getInput; exact grows_get_bind fun _ => grows_pure _
+  refine ⟨fun s r s' h => ?_⟩
+  unfold getInput at h; prim_simp h
+  obtain ⟨_, rfl⟩ := h; exact Store.Le.refl _
+
+theorem grows_modify {t : Store → Store} (ht : ∀ s, Store.Le s (t s)) : Grows (modify t : M Unit) := grows_set ht
 
 theorem grows_writeCell (i : Nat) (v : Val) : Grows (writeCell i v) := by
   unfold writeCell
-  exact grows_set fun s => ⟨by simp, Nat.le_refl _, Nat.le_refl _, rfl, ⟨[], by simp⟩⟩
+  exact grows_modify fun s => by split <;> first | exact Store.Le.refl _ | exact Store.Le.of_same (by simp) rfl rfl rfl rfl rfl
 theorem grows_putTable (a : Nat) (t : Table) : Grows (putTable a t) := by
   unfold putTable
-  exact grows_set fun s => ⟨Nat.le_refl _, by simp, Nat.le_refl _, rfl, ⟨[], by simp⟩⟩
+  exact grows_modify fun s => by split <;> first | exact Store.Le.refl _ | exact Store.Le.of_same rfl (by simp) rfl rfl rfl rfl
 theorem grows_emitEvent (vs : List Val) : Grows (emitEvent vs) := by
   unfold emitEvent
-  exact grows_set fun s => ⟨Nat.le_refl _, Nat.le_refl _, Nat.le_refl _, rfl, ⟨[vs], by simp⟩⟩
+  exact grows_modify fun s => by
+    split
+    · exact ⟨Nat.le_refl _, Nat.le_refl _, Nat.le_refl _, Nat.le_refl _, rfl, ⟨[vs], by simp⟩⟩
+    · exact Store.Le.refl _
+theorem grows_recordM (e : LogEntry) : Grows (recordM e) := by
+  unfold recordM; exact grows_modify fun s => Store.Le.record s e
+theorem grows_updCo (co : Nat) (f : CoState → CoState) : Grows (updCo co f) := by
+  unfold updCo; exact grows_modify fun s => Store.Le.of_same rfl rfl rfl (by simp) rfl rfl
+theorem grows_coEnter (co c first log) : Grows (coEnter co c first log) := by
+  unfold coEnter; exact grows_modify fun s => Store.Le.of_same rfl rfl rfl (by simp) rfl rfl
+theorem grows_coLeave (co upd) : Grows (coLeave co upd) := by
+  unfold coLeave; exact grows_modify fun s => Store.Le.of_same rfl rfl rfl (by simp) rfl rfl
+
+theorem grows_tryTbc {α} {x : M α} (hx : Grows x) : Grows (tryTbc x) := by
+  refine ⟨fun s r s' h => ?_⟩
+  simp only [tryTbc, ExceptT.run, ExceptT.mk, bind, StateT.bind, StateT.run] at h
+  cases hxs : x s with
+  | none => simp [hxs, ExceptT.run] at h
+  | some p =>
+    obtain ⟨r1, s1⟩ := p
+    have h1 : Store.Le s s1 := hx.out s r1 s1 (by simpa [ExceptT.run, StateT.run] using hxs)
+    simp only [hxs, ExceptT.run] at h
+    cases r1 with
+    | ok a => simp [pure, StateT.pure] at h; obtain ⟨_, rfl⟩ := h; exact h1
+    | error e => cases e <;> (simp [pure, StateT.pure] at h; obtain ⟨_, rfl⟩ := h; exact h1)
+
+theorem grows_tryCo {x : M (List Val)} (hx : Grows x) : Grows (tryCo x) := by
+  refine ⟨fun s r s' h => ?_⟩
+  simp only [tryCo, ExceptT.run, ExceptT.mk, bind, StateT.bind, StateT.run] at h
+  cases hxs : x s with
+  | none => simp [hxs, ExceptT.run] at h
+  | some p =>
+    obtain ⟨r1, s1⟩ := p
+    have h1 : Store.Le s s1 := hx.out s r1 s1 (by simpa [ExceptT.run, StateT.run] using hxs)
+    simp only [hxs, ExceptT.run] at h
+    cases r1 with
+    | ok a => simp [pure, StateT.pure] at h; obtain ⟨_, rfl⟩ := h; exact h1
+    | error e => cases e <;> (simp [pure, StateT.pure] at h; obtain ⟨_, rfl⟩ := h; exact h1)
+
+theorem grows_newCo (f : Val) : Grows (newCo f) := by unfold newCo; exact grows_allocCo _
 
 end GoluaVerif.Spec.Lua
 
@@ -257,6 +378,10 @@ theorem grows_evalTarget (c e) : Grows (evalTarget r c e) := by unfold evalTarge
 theorem grows_assignTo (d p) : Grows (assignTo r d p) := by unfold assignTo; grows_auto
 theorem grows_closeVal (d v e) : Grows (closeVal r d v e) := by unfold closeVal; grows_auto
 theorem grows_runBlock (c b) : Grows (runBlock r c b) := by unfold runBlock; grows_auto
+theorem grows_coRun (co c first log) : Grows (coRun r co c first log) := by unfold coRun; grows_auto
+theorem grows_resumeCo (co a) : Grows (resumeCo r co a) := by unfold resumeCo; grows_auto
+theorem grows_closeCo (d co) : Grows (closeCo r d co) := by unfold closeCo; grows_auto
+theorem grows_yieldCo (d vs) : Grows (yieldCo r d vs) := by unfold yieldCo; grows_auto
 theorem grows_builtinCall (d b a) : Grows (builtinCall r d b a) := by
   unfold builtinCall; cases b <;> simp only [] <;> grows_auto
 
